@@ -14,7 +14,7 @@ RULE = ('Hypothesis-generated histories over a small resource tree (root, sub-ma
         'of counting handles whose load() returns a FRESH object of a generated kind on every call (None, 0, 0.0, '
         'empty str/list/dict, False, NaN, objects whose __bool__ raises / __eq__ is always False / __eq__ '
         'raises, a World for world handles): accesses through every path - handle(), root[path], chained [], '
-        'enclosing_map[suffix], get(path)(), a world description file in the same tree naming the resource as $res{a.b} (loaded through a new WorldFromFileHandle), attribute and item chains and get() on static snapshots taken at '
+        'enclosing_map[suffix], get(path)(), a world description file in the same tree naming the resource as $res{a.b} (loaded through a new WorldFromFileHandle, or through the same one after clearing it), attribute and item chains and get() on static snapshots taken at '
         'generated moments, SimpleLoop.switch(handle, clear_current, clear_next) for world handles - '
         'interleaved with handle.clear() and with replacement of a handle in the map by a new one (the old handle '
         'stays in the program\'s hands and keeps being accessed) and with loads armed to FAIL once (load() raises, '
@@ -372,8 +372,13 @@ class Run:
             with open(f, 'w') as fh:
                 json.dump({'processors': [], 'entities': [{'components': [
                     {'type': 'verif_fixtures.PlainA', 'args': ['$res{%s}' % '.'.join(path)]}]}]}, fh)
-        wfh = desper.WorldFromFileHandle(f)
-        self.root['wf/w%d' % ix] = wfh          # (a new, not yet loaded world handle at every such access)
+        wfh = self.wfh.get(ix)
+        if wfh is None or (self.step_ix + ix) % 4 == 0:
+            wfh = self.wfh[ix] = desper.WorldFromFileHandle(f)      # a new, not yet loaded world handle
+            self.root['wf/w%d' % ix] = wfh
+        else:
+            wfh.clear()                         # the same world handle, cleared: it loads the world again
+            self.flags['world_file_reloaded_through_the_same_handle'] += 1
         world = wfh()
         comps = [c for _e, c in world.get(fx.PlainA)]
         if len(comps) != 1 or len(comps[0].args) != 1:
@@ -454,6 +459,7 @@ class Run:
 
     def run(self):
         self.tmpdir = None
+        self.wfh = {}
         try:
             self.check_flags()
             for self.step_ix, op in enumerate(self.case['ops']):
